@@ -146,7 +146,7 @@ Proof.
   all: intros k has_cr s fl; pose proof (src_checkable_is_state_ok_eq eq_refl k s) as Hok.
   all: unfold src_checkable_notification_reason_applies; cbn [ntype_num]; cbv zeta.
   all: rewrite Hok; generalize (is_ok k s); intro b.
-  all: repeat split; vm_compute; destruct has_cr, b, fl; reflexivity.
+  all: repeat split; destruct has_cr, b, fl; reflexivity.
 Qed.
 
 (* NotificationReasonSuppressed: the `supp` test of do_fire for state notifications, IsInDowntime for flapping ones *)
@@ -158,5 +158,5 @@ Lemma src_checkable_notification_reason_suppressed_ck : src_checkable_notificati
     src_checkable_notification_reason_suppressed (ntype_num NFlapEnd) reach indt ack = indt.
 Proof.
   intro Hrec; xl_rec Hrec.
-  all: intros reach indt ack; repeat split; vm_compute; destruct reach, indt, ack; reflexivity.
+  all: intros reach indt ack; repeat split; destruct reach, indt, ack; reflexivity.
 Qed.
